@@ -475,6 +475,45 @@ class Rules:
         self.bump('R4f', n)
         return ''.join(out)
 
+    # R4c: format!("lit{}lit{:X}", a, b) whose format string consists only of literal text and `{}` / `{:X}`
+    # placeholders -> the concatenation  Str::from("lit") + &(a).to_str() + &Str::from("lit") + &(b).to_hex_upper()
+    # (text-PRESERVING, unlike R4f; `to_str` is the Display stand-in of the unit: exact decimal digits / the char / the
+    # string itself).  Anything else in the format string is an extraction error.
+    def r4c(self, text):
+        masked = mask_source(text)
+        out, last, n = [], 0, 0
+        for m in re.finditer(r'\bformat!\s*\(', masked):
+            if m.start() < last:
+                continue
+            c = match_close(masked, m.end() - 1)
+            out.append(text[last:m.start()])
+            inner, inner_m = text[m.end():c], masked[m.end():c]
+            parts = split_top(inner_m, 0, len(inner_m), ',')
+            fmt = inner[parts[0][0]:parts[0][1]].strip()
+            fm = re.match(r'^"((?:[^"\\{}]|\{\}|\{:X\})*)"$', fmt)
+            if not fm:
+                raise ExtractError('R4c: unsupported format string %s' % fmt)
+            args = [inner[pa:pb].strip() for (pa, pb) in parts[1:] if inner[pa:pb].strip()]
+            pieces = re.split(r'(\{\}|\{:X\})', fm.group(1))
+            terms, k = [], 0
+            for pc in pieces:
+                if pc == '{}':
+                    terms.append('(%s).to_str()' % args[k]); k += 1
+                elif pc == '{:X}':
+                    terms.append('(%s).to_hex_upper()' % args[k]); k += 1
+                elif pc:
+                    terms.append('Str::from("%s")' % pc)
+            if k != len(args):
+                raise ExtractError('R4c: %d placeholders but %d arguments in %s' % (k, len(args), fmt))
+            if not terms:
+                terms = ['Str::new()']
+            out.append('(' + terms[0] + ''.join(' + &' + t for t in terms[1:]) + ')')
+            last = c + 1
+            n += 1
+        out.append(text[last:])
+        self.bump('R4c', n)
+        return ''.join(out)
+
     # R8: Verus dialect
     def r8_static(self, text):
         new, n = re.subn(r'^(\s*)(pub\s+)?static\s+(\w+\s*:\s*(?:u8|u16|u32|u64|usize|i32|i64|f64))', r'\1\2const \3', text, flags=re.M)
